@@ -218,13 +218,24 @@ def families(eng, tier, seed):
     for ename, efn in edits():
         for order in (0, 1): fams.append(run_family("edit-%s-o%d" % (ename, order), edit_family(ename, efn, order), tier))
     for n, mk in recursive_families() + generic_families(): fams.append(run_family(n, mk, tier))
+    if tier == "thorough":
+        # pairs of shape edits on the second member (the first edit of a pair may mask or unmask the second)
+        E = edits()
+        for i in range(len(E)):
+            for j in range(i + 1, len(E)):
+                if E[i][0].split("-")[0] == E[j][0].split("-")[0]: continue      # two edits of the same field: the second overwrites the first
+                def both(reg, c, a=E[i][1], b=E[j][1]):
+                    a(reg, c)
+                    try: b(reg, c)
+                    except (IndexError, KeyError, TypeError): pass
+                fams.append(run_family("edit2-%s+%s" % (E[i][0], E[j][0]), edit_family("x", both, 0), tier))
     # free choice of field targets from the palette (all aliasing patterns)
     tg = list(range(9))
     for order in (0, 1):
         fams.append(run_family("palette-2fields-o%d" % order, two_member_family(2, tg if tier == "thorough" else [0, 1, 2, 4, 5, 6, 7], order), tier))
     # the three-field cross family over the two nested same-path pairs (W, W', V, V')
     for order in (0, 1):
-        fams.append(run_family("palette-3fields-nested-pairs-o%d" % order, two_member_family(3, [4, 5, 6, 7] if tier == "quick" else [0, 4, 5, 6, 7], order), tier))
+        fams.append(run_family("palette-3fields-nested-pairs-o%d" % order, two_member_family(3, [4, 5, 6, 7] if tier == "quick" else [0, 2, 4, 5, 6, 7], order), tier))
     for f in fams:
         f.witnesses = ()
         if f.name.startswith("palette"): f.target_prefixes = 96
